@@ -663,3 +663,35 @@ func unboundedLengthLeaves(v ssa.Value, depth int, seen map[ssa.Value]bool) []st
 	}
 	return nil
 }
+
+// fixedArrayUnboundedIndex: indices into fixed-size arrays whose value expression bottoms out in
+// an unbounded big.Int length (library-wide generalisation of scan-start-bounded).
+func fixedArrayUnboundedIndex(p *Program, fn *ssa.Function) (int, []Finding) {
+	var hits []Finding
+	n := 0
+	for _, b := range fn.Blocks {
+		for _, in := range b.Instrs {
+			ia, ok := in.(*ssa.IndexAddr)
+			if !ok {
+				continue
+			}
+			pt, ok := ia.X.Type().Underlying().(*types.Pointer)
+			if !ok {
+				continue
+			}
+			if _, isArr := pt.Elem().Underlying().(*types.Array); !isArr {
+				continue
+			}
+			if _, isConst := ia.Index.(*ssa.Const); isConst {
+				continue
+			}
+			n++
+			for _, bad := range unboundedLengthLeaves(ia.Index, 0, map[ssa.Value]bool{}) {
+				hits = append(hits, Finding{fn, ia.Pos(), "array-index-bounded(" + descValue(ia.X, 0) + ")",
+					fmt.Sprintf("%s: the fixed-size array %s is indexed with a value computed from %s, which is not bounded by the array length", funcKey(fn), descValue(ia.X, 0), bad)})
+				break
+			}
+		}
+	}
+	return n, hits
+}
